@@ -62,6 +62,13 @@ fn eq_json<T: Queryable>(lhs: &T, rhs: &T) -> bool {
 
     if let (Some(lhs_num), Some(rhs_num)) = (lhs_f64, rhs_f64) {
         lhs_num == rhs_num
+    } else if let (Some(lhs), Some(rhs)) = (lhs.as_array(), rhs.as_array()) {
+        lhs.len() == rhs.len() && lhs.iter().zip(rhs).all(|(l, r)| eq_json(l, r))
+    } else if let (Some(lhs), Some(rhs)) = (lhs.as_object(), rhs.as_object()) {
+        lhs.len() == rhs.len()
+            && lhs
+                .iter()
+                .all(|(k, l)| rhs.iter().any(|(k2, r)| k == k2 && eq_json(*l, *r)))
     } else {
         lhs == rhs
     }
